@@ -32,6 +32,7 @@ C15_OK(ev, i) == LET a == Base(ev, i) ca == DrawCells(a) cb == DrawCells(ev) IN
   /\ \A r \in 1..Len(ca) : RStripCells(cb[r]) = RStripCells(BlankQuoted(ca[r]))
   /\ a.doc.wf = 1 /\ ev.doc.wf = 1
   /\ SameBag(a.doc.elems, ev.doc.elems \o QuotedElems(ca))
+  /\ a.doc.w = ev.doc.w /\ a.doc.h = ev.doc.h           \* ... the page included: quoted text takes no room of its own
 C17_OK(ev, i) == LET a == Base(ev, i) IN EolVariant(a.rows, ev.rows) /\ SameDoc(a.doc, ev.doc)
 
 Holds(ev, i, p) ==
